@@ -267,7 +267,7 @@ package flamego
 
 //@ define routerWF(r *router) bool = r.notFound != nil && r.routeTrees != nil && r.staticRoutes != nil && r.namedRoutes != nil &&
 //@     r.parser != nil && r.contextCreator != nil && r.regCount >= 0 &&
-//@     (forall m string :: has(r.routeTrees, m) ==> isTree(r.routeTrees[m])) &&
+//@     (forall m string :: has(r.routeTrees, m) ==> isTree(r.routeTrees[m]) && bareOK(r.routeTrees[m])) &&
 //@     (forall k int :: 0 <= k && k < len(httpMethods) ==> has(r.routeTrees, httpMethods[k]) && has(r.staticRoutes, httpMethods[k]) && r.staticRoutes[httpMethods[k]] != nil) &&
 //@     (forall m string, p string :: has(r.staticRoutes, m) && has(r.staticRoutes[m], p) ==> r.staticRoutes[m][p] != nil) &&
 //@     (forall m string :: r.staticRoutes[m] != r.namedRoutes) &&
@@ -622,7 +622,7 @@ package flamego
 //@ func (*router).addRoute
 //@   props C08 C09 C10
 //@   requires routerWF(r) && treeWF() && handler != nil
-//@   modifies maps(type(map[string]route.Leaf)), route.baseTree.leaves, route.baseTree.subtrees, route.baseTree.snapLeaves, route.baseTree.snapTrees, elems(type([]route.Leaf)), elems(type([]route.Tree)),
+//@   modifies maps(type(map[string]route.Leaf)), route.baseTree.leaves, route.baseTree.subtrees, route.baseTree.snapLeaves, route.baseTree.snapTrees, route.Segment.scratchIdx, elems(type([]route.Leaf)), elems(type([]route.Tree)),
 //@       route.Segment.str, route.Segment.strOnce.fired, route.Route.str, route.Route.strOnce.fired, elems(type([]string))
 //@   panics true
 //@   ensures routerWF(r) && treeWF()
